@@ -23,7 +23,7 @@ func init() {
 		Explanation: "Call discipline of TCP connection metrics on all paths: (ONCE) a connection is reported open at most once per HandleStream and exactly once when metrics are configured; AddClosed runs exactly once on every path of Handle, before the client connection is closed; " +
 			"AddAuthenticated runs at most once, only on the authentication-success edge, on every path from that edge, before the relay; AddProbe runs exactly once in the drain helper, which is called only on the authentication-failure edge, with the client-to-proxy byte counter read after the drain; " +
 			"(STATUS) the status given to AddClosed is \"OK\" or the Status of the returned error; (WIRING) the client connection is measured into ProxyClient/ClientProxy and the dialed connection into ProxyTarget/TargetProxy, and the Prometheus adapter maps the four counters to c>p, p>t, p<t, c<p; " +
-			"(PASSTHRU) the measuring wrapper (found by shape; counter roles from MeasureConn's parameter order) counts exactly what the wrapped call returned; the per-connection goroutine of the serve loop owns its iteration's connection variable; (ARITY) every WithLabelValues has the arity of its vector.",
+			"(PASSTHRU) the measuring wrapper (found by shape; counter roles from MeasureConn's parameter order) counts exactly what the wrapped call returned; the per-connection goroutine of the serve loop owns its iteration's connection variable; (ARITY) every WithLabelValues has the arity of its vector. (HALFCLOSE/JOIN) a relay direction fails only by its own fault — the other direction never closes the connection it is still copying from — so ERR_RELAY_CLIENT / ERR_RELAY_TARGET name the side that failed.",
 		NotDecided: "numeric equality of the counters with the bytes on the wire.",
 	})
 }
